@@ -250,7 +250,7 @@ PROPS = {
     "C04": dict(
         lean_modules=["AlphaG.Props.C04", "AlphaG.Props.C04Complete"],
         required_theorems=["AlphaG.Pwb." + t for t in [
-            "reassemble_ok_iff", "reassemble_complete", "bound_of_valid", "reassemble_sort_irrelevant", "reassemble_perm", "reassemble_perm_eq", "reassemble_ok_eq_direct",
+            "reassemble_ok_iff", "reassemble_complete", "reassemble_of_sorted_perm", "bound_of_valid", "reassemble_sort_irrelevant", "reassemble_perm", "reassemble_perm_eq", "reassemble_ok_eq_direct",
             "reassemble_fails_if_missing_id", "reassemble_fails_if_duplicated_id", "reassemble_fails_if_two_boards",
             "reassemble_fails_if_two_chips", "reassemble_fails_if_eom_absent_on_last",
             "reassemble_fails_if_eom_on_earlier", "reassemble_fails_if_nonfinal_size_differs", "reassemble_total",
